@@ -165,6 +165,40 @@ class SymCtx(BaseCtx):
     def deep_pin(self, x, where=""):
         return arrstr.deep_pin(x, where)
 
+    def cross_check(self, good, label, timeout_s=120):
+        """Re-decide 'path condition AND NOT good' with the z3 4.8.12 and cvc5 1.0.3 binaries (second opinions on the
+        LIA encoding of a kernel).  The outcome is recorded as a note in evidence; 'sat' from either is a disagreement
+        with an in-process 'unsat' and is reported by the harness as inconclusive."""
+        import os
+        import subprocess
+        import tempfile
+
+        with NoTracing():
+            space = context_statespace()
+            s2 = z3.Solver()
+            for a in space.solver.assertions():
+                s2.add(a)
+            s2.add(z3.Not(good.var if hasattr(good, "var") else good))
+            text = "(set-logic ALL)\n" + s2.to_smt2()
+            fd, path = tempfile.mkstemp(suffix=".smt2")
+            out = {}
+            try:
+                with os.fdopen(fd, "w") as f:
+                    f.write(text)
+                for name, cmd in (("z3-4.8.12", ["/usr/bin/z3", "-T:%d" % timeout_s, path]),
+                                  ("cvc5-1.0.3", ["cvc5", "--tlimit=%d" % (timeout_s * 1000), path])):
+                    try:
+                        r = subprocess.run(cmd, capture_output=True, text=True, timeout=timeout_s + 30)
+                        txt = (r.stdout + r.stderr).strip().splitlines()
+                        ans = [l for l in txt if l in ("sat", "unsat", "unknown")]
+                        out[name] = "error" if any("(error" in l for l in txt) else (ans[0] if ans else "timeout")
+                    except Exception as e:  # noqa
+                        out[name] = "unavailable"
+            finally:
+                os.remove(path)
+            self.notes.append("xcheck %s: %s" % (label, ", ".join("%s=%s" % kv for kv in sorted(out.items()))))
+            return out
+
     def pin_all(self, where="pin_all"):
         """concretise every named symbolic variable of this path (non-forking): from here on the path is a
         representative concrete run (PATH_COMPLETE)"""
